@@ -12,13 +12,15 @@ def build(chk):
         chk.add(ev.ob('O1.normalize_family.V%df' % n, 'c08/len.c', 'h_normalize_skeleton_%d' % n,
                       'Vec%df normalize/normalizeExc/normalizeNonNull and normalized*: when the checked form returns all forms agree bit for bit; normalizeExc/normalizedExc throw std::domain_error exactly when the unchecked form reports the zero vector' % n,
                       variant='ufar', defines=('UF_ARITH',), unwind=n + 2, bounds=UFB, timeout=240, backends=('z3', 'kissat', 'minisat')))
-    ep = EngB(chk, 'pairs', vopts=dict(nvec=100, bufsizes={f: {0: 24} for f in ('w_fr_proj', 'w_fr_proj_exc', 'w_fr_p2s', 'w_fr_p2s_exc', 'w_fr_nz2d', 'w_fr_nz2d_exc', 'w_fr_sr', 'w_fr_sr_exc', 'w_fr_wr', 'w_fr_wr_exc', 'w_fr_aspect', 'w_fr_aspect_exc', 'w_fr_d2z', 'w_fr_d2z_exc')}))
+    ep = EngB(chk, 'pairs', vopts=dict(nvec=100, bufsizes={f: {0: 24} for f in ('w_fr_proj', 'w_fr_proj_exc', 'w_fr_p2s', 'w_fr_p2s_exc', 'w_fr_nz2d', 'w_fr_nz2d_exc', 'w_fr_sr', 'w_fr_sr_exc', 'w_fr_wr', 'w_fr_wr_exc', 'w_fr_aspect', 'w_fr_aspect_exc', 'w_fr_d2z', 'w_fr_d2z_exc', 'w_fr_z2d', 'w_fr_z2d_exc', 'w_fr_setfov', 'w_fr_setfov_exc')}))
     ep.variant('ufar', uf=UF)
     chk.add(ep.ob('O1.Vec3_from_Vec4_InfException', 'c07/vec4.c', 'h_v3_from_v4', 'Vec3(Vec4, InfException) == Vec3(Vec4) whenever it returns; throws std::domain_error only; never throws for |w| >= 1',
                   variant='ufar', unwind=6, bounds=UFB, timeout=120, backends=('z3', 'kissat', 'minisat')))
-    for nm in ('projection', 'point_to_screen', 'normalizedZToDepth', 'screenRadius', 'worldRadius', 'aspect'):
+    for nm in ('projection', 'point_to_screen', 'normalizedZToDepth', 'screenRadius', 'worldRadius', 'aspect', 'ZToDepth', 'DepthToZ', 'setfov'):
         chk.add(ep.ob('O1.Frustum.%s' % nm, 'c07/frustum.c', 'h_fr_' + nm, 'Frustum<float>: the ...Exc form of %s returns exactly what the unchecked form returns whenever it returns; std::domain_error only' % nm,
                       variant='ufar', unwind=18, bounds=UFB + '; both projection kinds', timeout=240, backends=('z3', 'kissat', 'minisat')))
+    chk.add(ep.ob('O1.Frustum.ZToDepth_empty_range', 'c07/frustum.c', 'h_fr_ZToDepth_zero_range', 'Frustum<float>::ZToDepthExc rejects an empty z range (int(zmax-zmin) == 0) with std::domain_error',
+                  variant='ufar', unwind=18, bounds=UFB, timeout=240, backends=('z3', 'kissat', 'minisat')))
     ei = EngB(chk, 'inverse', vopts=dict(nvec=100)); ei.variant('ufar', uf=UF)
     for nm, heavy in (('inverse22', 0), ('invert22', 0), ('inverse33', 0), ('invert33', 0), ('gjInverse33', 1), ('gjInvert33', 1), ('inverse44', 2), ('invert44', 2), ('gjInverse44', 2), ('gjInvert44', 2)):
         n = int(nm[-1])
@@ -32,4 +34,4 @@ def build(chk):
     chk.assumptions += ['arithmetic is abstracted identically on both sides (uninterpreted functions; + and * commutative by construction): the obligations decide that the two textual copies perform the same operations under the same guards, for every input bit pattern',
                         'Frustum objects are built through the public constructor from six arbitrary parameters and the projection kind']
     chk.outside += ['"overflow guards fire only within a factor four of the type maximum" and "well-conditioned input never throws" (need accuracy reasoning)',
-                    'matrix-decomposition functions with an exc flag (extractScaling/extractSHRT/...): see C12', 'Frustum::setExc, localToScreenExc (protected), ZToDepthExc, DepthToZExc: not yet covered']
+                    'matrix-decomposition functions with an exc flag (extractScaling/extractSHRT/...): see C12', 'Frustum::localToScreenExc (protected; reached through projectPointToScreenExc)']
